@@ -131,6 +131,14 @@ impl Stdlib for VerifStdlib {
     }
 
     fn set_env_var(&mut self, name: String, value: String) {
+        // the preconditions of std::env::set_var, which the real Stdlib calls:
+        // it panics on an empty name, on '=' or NUL in the name and on NUL in the value
+        assert!(
+            !name.is_empty() && !name.contains('=') && !name.contains('\0') && !value.contains('\0'),
+            "failed to set environment variable `{:?}` to `{:?}`",
+            name,
+            value
+        );
         self.env.insert(name, value);
     }
 }
